@@ -9,6 +9,9 @@
 //! append+rollback == the live rows before — is evaluated in Rust, (ii) the
 //! same operations, queries and observed answers are written as Coq cases for
 //! the model (coq/Indexer/Query.v) to recompute.
+//! A second stream (rich.rs) does the same for the SQL-backed rich indexer
+//! (util/rich-indexer) on in-memory SQLite, against coq/Indexer/Rich.v.
+mod rich;
 mod spec;
 mod world;
 
@@ -587,7 +590,12 @@ fn main() {
         let hseed = case["history_seed"].as_u64().expect("history_seed in the replay file");
         let scratch = scratch_dir("C18");
         let mut tot = Totals::default();
-        let _ = run_history(hseed, tier_is_thorough(), &scratch, &mut tot, true);
+        if case["stream"].as_str() == Some("rich") {
+            let rt = rich::runtime();
+            let _ = rich::run_rich_history(&rt, hseed, tier_is_thorough(), &mut tot, true);
+        } else {
+            let _ = run_history(hseed, tier_is_thorough(), &scratch, &mut tot, true);
+        }
         let _ = fs::remove_dir_all(&scratch);
         let mut bad = 0;
         for x in &tot.viol {
@@ -652,6 +660,48 @@ fn main() {
         fs::write(out.join(format!("cases_{:02}.json", i)), serde_json::to_string(&descs[i]).unwrap()).unwrap();
     }
     let _ = fs::remove_dir_all(&scratch);
+    // ---- second stream: the rich indexer (SQLite in memory), see rich.rs ----
+    let n_rich = if thorough { 40 } else { 14 };
+    let rshards = if thorough { 16usize } else { 8usize };
+    let mut rfiles: Vec<CaseFile> = (0..rshards)
+        .map(|i| {
+            let mut cf = CaseFile::new(&out, &format!("cases_r{:02}", i), "From CKB Require Import Indexer.Rich.");
+            cf.group("rich", "rich_hist_case", "check_rich_hist");
+            cf
+        })
+        .collect();
+    let mut rdescs: Vec<BTreeMap<String, Vec<Value>>> = (0..rshards).map(|_| BTreeMap::new()).collect();
+    let mut rseeds: Vec<u64> = vec![1, 2];
+    for _ in 0..n_rich {
+        rseeds.push(rng.next());
+    }
+    let rt = rich::runtime();
+    let mut rich_hist = 0u64;
+    for (hi, hs) in rseeds.iter().enumerate() {
+        let h = rich::run_rich_history(&rt, *hs, thorough, &mut tot, false);
+        if h.nontrivial {
+            distinct += 1;
+        }
+        rich_hist += 1;
+        let sh = hi % rshards;
+        rfiles[sh].push(0, h.coq_case);
+        if samples.len() < 3 {
+            let mut small = h.desc.clone();
+            if let Some(st) = small["steps"].as_array() {
+                let cut: Vec<Value> = st.iter().take(1).cloned().collect();
+                small["steps"] = json!(cut);
+            }
+            samples.push(small);
+        }
+        let d = json!({"history_seed": h.desc["history_seed"], "stream": "rich", "steps": h.desc["steps"].as_array().map(|a| a.len())});
+        rdescs[sh].entry("rich".into()).or_default().push(d);
+    }
+    drop(rt);
+    for (i, cf) in rfiles.iter().enumerate() {
+        cf.write().unwrap();
+        fs::write(out.join(format!("cases_r{:02}.json", i)), serde_json::to_string(&rdescs[i]).unwrap()).unwrap();
+    }
+    tot.stats.insert("rich_histories".into(), rich_hist);
     for (k, v) in &tot.known_counts {
         tot.stats.insert(format!("known_finding_hits::{k}"), *v);
     }
@@ -660,7 +710,7 @@ fn main() {
         "seed": seed,
         "evaluations": tot.evaluations,
         "distinct_nontrivial": distinct,
-        "rule": "evaluations = queries put to the real indexer after an append/rollback of a generated history (IndexerSync loop over a main chain with reorganisations); distinct = histories with at least one rollback or one cell created and spent in the same block",
+        "rule": "evaluations = queries put to the real indexers after an append/rollback of a generated history (IndexerSync loop over a main chain with reorganisations); stream 1: ckb-indexer (RocksDB), one request per query; stream 2 (distribution keys rich_*): rich indexer (SQLite in memory), one evaluation = one search key put to one method with its pages walked to the end, compared with the direct filter over the replayed chain under the rich indexer's documented semantics (chain order, opaque cursor, partial mode, capacity null when nothing is selected, every cell filter on get_transactions, filter.script a prefix), and after every rollback the whole fixed battery compared with its answers before the append; distinct = histories with at least one rollback or one cell created and spent in the same block",
         "distribution": tot.stats,
         "samples": samples,
         "impl_violations": tot.viol.iter().map(|v| {
@@ -670,7 +720,7 @@ fn main() {
         }).collect::<Vec<_>>(),
     });
     fs::write(out.join("summary.json"), serde_json::to_string_pretty(&summary).unwrap()).unwrap();
-    println!("hx-indexer: {} histories, {} queries, {} implementation-side violations", hseeds.len(), tot.evaluations, tot.viol.len());
+    println!("hx-indexer: {} + {} histories, {} queries, {} implementation-side violations", hseeds.len(), rseeds.len(), tot.evaluations, tot.viol.len());
 }
 
 // ---------------------------------------------------------------------------
